@@ -51,6 +51,27 @@ func init() {
 		fv.decodeInto(st, call.Args[0])
 		return fv.freshResults(st, call, "decode")
 	}
+	// cilium/ebpf Map.Lookup(key, valueOut) / LookupAndDelete: the kernel map is only read (the
+	// delete is counted like Map.Delete); an arbitrary type-valid value is stored through valueOut
+	for _, name := range []string{"Lookup", "LookupAndDelete"} {
+		name := name
+		libModels["(*github.com/cilium/ebpf.Map)."+name] = func(fv *funcVerifier, st *State, call *ast.CallExpr, fn *types.Func) []smt.Term {
+			fv.evalCallee(st, call.Fun)
+			if len(call.Args) >= 1 {
+				fv.evalExpr(st, call.Args[0])
+			}
+			if len(call.Args) >= 2 {
+				fv.decodeInto(st, call.Args[1])
+			}
+			if name == "LookupAndDelete" {
+				if cur, ok := st.ghost["bpfDeletes"]; ok && !st.dead() {
+					st.ghost["bpfDeletes"] = fv.c.Let("ghost_bpfDeletes", smt.Add(cur, smt.IntLit(1)))
+				}
+			}
+			return fv.freshResults(st, call, "bpflookup")
+		}
+		impureModel["(*github.com/cilium/ebpf.Map)."+name] = true
+	}
 	allocOnly := func(fv *funcVerifier, st *State, call *ast.CallExpr, fn *types.Func) []smt.Term {
 		for _, a := range call.Args {
 			fv.evalExpr(st, a)
@@ -81,7 +102,7 @@ func init() {
 	// (select mem (+ off i)) that the triggers of contracts match).
 	libModels["sort.Strings"] = func(fv *funcVerifier, st *State, call *ast.CallExpr, fn *types.Func) []smt.Term {
 		x := fv.evalExpr(st, call.Args[0])
-		fv.c.DeclareFun("str_lt", []string{StrSort, StrSort}, smt.Bool)
+		fv.declareStrLt()
 		key := fv.memKey(types.Typ[types.String])
 		fv.instFrames(key, slArr(x))
 		h := fv.heapGet(st, key)
@@ -155,6 +176,9 @@ func init() {
 		fv.assumeGlobal(smt.Forall([]smt.Term{i}, smt.Implies(inOld(i), smt.And(inNew(df(i)), smt.Le(df(i), i), smt.Eq(at(nw, df(i)), at(old, i)))), df(i), at(old, i)))
 		fv.assumeGlobal(smt.Forall([]smt.Term{i}, smt.Implies(smt.And(smt.Ge(i, smt.IntLit(0)), smt.Lt(smt.Add(i, smt.IntLit(1)), n2)),
 			smt.Ne(at(nw, i), at(nw, smt.Add(i, smt.IntLit(1))))), at(nw, i)))
+		// the kept elements keep their order: source positions are strictly increasing
+		fv.assumeGlobal(smt.Forall([]smt.Term{i}, smt.Implies(smt.And(smt.Ge(i, smt.IntLit(0)), smt.Lt(smt.Add(i, smt.IntLit(1)), n2)),
+			smt.Lt(sf(i), sf(smt.Add(i, smt.IntLit(1))))), sf(i)))
 		fv.assumeGlobal(smt.Forall([]smt.Term{i}, smt.Implies(smt.Or(smt.Lt(i, off), smt.Ge(i, smt.Add(off, n))), smt.Eq(smt.Select(nw, i), smt.Select(old, i))), smt.Select(nw, i)))
 		fv.mut++
 		fv.heapSet(st, key, smt.Store(h, slArr(x), nw))
@@ -168,7 +192,8 @@ func init() {
 	AssumedLib = append(AssumedLib,
 		"(*json.Decoder).Decode: stores an arbitrary type-valid value through the pointer argument, may allocate, changes nothing else; json.NewDecoder/NewEncoder/(*Encoder).Encode, io.ReadAll: allocate only",
 		"(io.Closer).Close: no effect on the modelled heap",
+		"cilium/ebpf Map.Lookup / LookupAndDelete(key, out): store an arbitrary type-valid value through out, change nothing else of the Go state",
 		"sort.Strings(x): afterwards x[0:len(x)] is a permutation of its previous contents and no later element is str_lt an earlier one; nothing else changes",
-		"slices.Compact(x): in place; the result has the elements of x in order without adjacent repeats (index maps both ways), adjacent elements differ, len <= len(x)",
+		"slices.Compact(x): in place; the result has the elements of x in order (strictly increasing source positions) without adjacent repeats (index maps both ways), adjacent elements differ, len <= len(x)",
 		"reads of exported fields of library structs modelled as opaque (e.g. http.Request.Method) are unconstrained")
 }
